@@ -591,7 +591,7 @@ func parseRequestURL(c *Client, r *Request) error {
 }
 
 func parseRequestHeader(c *Client, r *Request) error {
-	if c.Headers == nil {
+	if c.Headers == nil || r.RetryAttempt > 0 { // merged once per execution, like client cookies and form data: a retry sends what the first attempt sent
 		return nil
 	}
 	if r.Headers == nil {
